@@ -281,27 +281,27 @@ COMMON_TEXT = (" The rule is decided on MIR built with debug assertions; it carr
                "profile/debug-assertions-are-pure).")
 EXTRA = {
     "C12": "The run loop ends on an error halt as on a regular stop (run-loop/error-halt-*).",
-    "C04": "pipeline/frame/registers: per programmed word, an edge without a pending commit leaves R0-R7 (the interrupt-enable bit included) unchanged.",
+    "C04": "pipeline/frame/registers: per programmed word, an edge without a pending commit leaves R0-R7 (the interrupt-enable bit included) unchanged. gate/enable-store: a store of b to 0xF9 enables the key exactly for odd b (256 bytes).",
     "C01": "The bus rule of C10 (bus/*), the ALU rule of C08 (alu/*) and the fetch latch clause (fetch/*) are part of this rule.",
     "C02": "Under parse/*: the parser clauses ast/* (AST variant, operand order, no operand child dropped) and numeric/value "
            "(every numeral consumer interpreted on concrete numeral texts) of C03; the encoding is independent of which names are "
            "already defined.",
     "C03": "Further clauses: grammar/label-lines (names beginning with a keyword), ast/no-operand-dropped, numeric/value on concrete "
            "numerals, comment/trimmed on 341 concrete comment texts, label-check-propagates, program/* (one Line per line pair), and "
-           "error-path/* (the conversion of a pest error interpreted for 0..5 expected rules). labels/limit is evaluated on concrete numbers of definitions on both sides of 40 and of 256.",
+           "error-path/* (the conversion of a pest error interpreted for 0..5 expected rules). labels/limit is evaluated on concrete numbers of definitions on both sides of 40 and of 256. ast/operand-forms: the real operand parsers interpreted on PEG parse trees of concrete operand texts.",
     "C05": "The pipeline agreement of C01 runs here as cpu-pipeline/*.",
     "C06": "The sites of Machine::load are analysed per *PROGRAMSIZE kind and keyed by the kinds they can fail for.",
     "C07": "A latch classed 'constant None' is shown to be that constant (constant-none/*). load/default-limits: a program without limit directives is translated with the power-on stack limit and AUTO.",
-    "C09": "The ALU rule of C08 runs here as alu/* (the loop exits are ALU conditions); both resets leave the power-on control state. sequencer-inputs/accessors: Signals::from wires each sequencer input to the source of its name.",
+    "C09": "The ALU rule of C08 runs here as alu/* (the loop exits are ALU conditions); both resets leave the power-on control state. sequencer-inputs/accessors: Signals::from wires each sequencer input to the source of its name. loop-data-path/*: the pipeline agreement of C01 restricted to the data-driven control words (registers only).",
     "C10": "construct/*: Machine::new, Machine::new_with_program and the interactive front end's constructors present the configured "
-           "input registers; the MICR stores exactly the documented six bits, each at its position. write-port-callers: Bus::write is called by the CPU write stage only.",
+           "input registers; the MICR stores exactly the documented six bits, each at its position. write-port-callers: Bus::write is called by the CPU write stage only. reset_ram-callers: RAM is cleared by the program loaders only.",
     "C11": "The sequencer rule of C09 (with the ALU rule of C08) runs here as sequencer/*: a step returns because every defined opcode "
            "reaches the next fetch.",
     "C13": "no-recursion on the resolved call graph.",
     "C14": "fan-period/pointwise: all 256 DAC bytes against the exact two-stage law, float operations evaluated in their MIR type.",
-    "C15": "The interrupt hand-over word and the MUL/DIV routines touch no bus address.",
+    "C15": "The interrupt hand-over word and the MUL/DIV routines touch no bus address. documented-path/*: the pipeline agreement of C01 restricted to the data-driven control words (registers only).",
     "C17": "Key and command dispatch are must-calls (marker cell); every (code, modifiers) event forwarded to the editor is interpreted "
-           "in InputState::handle; no panicking operator arithmetic on Duration/Instant in the TUI module.",
+           "in InputState::handle; no panicking operator arithmetic on Duration/Instant in the TUI module. The helpers the dispatch analysis takes as given (InputState::is_empty, NotificationState::is_empty/clear) are decided on concrete states.",
 }
 
 
